@@ -48,6 +48,7 @@ def hash_distinguishes(n):
     from pharmpy.workflows.hashing import ModelHash
     base = load_example_model('pheno')
     df0 = base.dataset
+    ModelHash(base)            # the base dataset has been keyed before the derived datasets are made from it
     keys = {}
     for i in range(n):
         df = df0.copy()
